@@ -10,19 +10,40 @@ from harness import util, dyn
 THEOREMS = ['C08_dual_ring', 'C08_dual_is_derivative', 'C08_derivative_linear',
             'C08_central_difference_exact_deg2', 'C08_central_difference_deg3', 'C08_matvec_adjoint',
             'C08_compose_adjoint', 'C08_cumsum_adjoint', 'C08_product_jacobian_adjoint',
-            'C08_linear_jvp_is_self', 'C08_linear_jvp_vjp', 'C08_advection_jvp', 'C08_checkpoint_irrelevant', 'C08_example']
+            'C08_linear_jvp_is_self', 'C08_linear_jvp_vjp', 'C08_advection_jvp', 'C08_checkpoint_irrelevant', 'C08_example',
+            'C08_synth_analysis_adjoint', 'C08_synth_adjoint', 'C08_synthT_is_unweighted_analysis',
+            'C08_analysis_adjoint', 'C08_analysisT_is_weighted_synth', 'C08_synth_jvp_is_self', 'C08_d_dlon_skew',
+            'C08_D1_adjoint', 'C08_D2_adjoint', 'C08_D1T_is_neg_D2', 'C08_diag_self_adjoint',
+            'C08_cos_lat_grad_adjoint', 'C08_grad_div_adjoint', 'C08_u_dot_grad_jvp', 'C08_sigma_dot_jvp',
+            'C08_vertical_tendency_jvp', 'C08_t_omega_jvp', 'C08_temp_adiabatic_jvp',
+            'C08_temp_vertical_tendency_jvp', 'C08_kinetic_jvp', 'C08_hsa_jvp', 'C08_rt_jvp', 'C08_combined_uv_jvp',
+            'C08_temp_adiabatic_moist_jvp', 'C08_humidity_terms_jvp', 'C08_temp_nodal_total_jvp',
+            'C08_log_pressure_tendency_jvp', 'C08_filter_jvp_is_self', 'C08_filter_self_adjoint', 'C08_ops_example']
 LEVEL = 'proof'
 LEVEL_TEXT = ('Coq theorems: dual numbers form a commutative ring; for EVERY expression of field operations evaluation '
               'at x+eps*v yields (value, directional derivative); the derivative is linear in the tangent; central '
               'differences equal it exactly for degree <= 2 (error h^2*c3 for degree 3); adjoint identities '
               '<Av,w> = <v,A^T w> for matrix products, compositions, cumsum/reverse-cumsum, pointwise products, all '
-              'sizes. The same Gallina model terms are executed at the dual-number carrier (extraction) and compared '
-              'with jax.jvp of the implementation. JAX AD itself and the transcendental parts are decided by '
+              'sizes. Concrete operators (all sizes, every carrier): the spherical-harmonic transforms are mutually adjoint '
+              'up to the quadrature weights (vjp of to_nodal = to_modal without weights, vjp of to_modal = weights * to_nodal, '
+              'for arbitrary tables); d_dlon skew-adjoint in both layouts, laplacian / inverse_laplacian / clip self-adjoint, '
+              'explicit tridiagonal transposes of cos_lat_d_dlat / sec_lat_d_dlat_cos2, D1^T = -D2 and grad^T = -div under '
+              'table obligations; every nonlinear nodal term of the primitive equations (u.grad lnps, sigma-dot, vertical '
+              'advection, T omega/p, dry and moist adiabatic terms, kinetic energy, scalar advection, R T_v variants, the '
+              'combined momentum terms, humidity corrections) evaluated at dual numbers equals its explicit product-rule '
+              'linearisation, with the non-zero hypotheses (layer thickness, 1 + (Cpv/Cp - 1) q) stated; filters are linear, '
+              'diagonal and self-adjoint. The same Gallina terms are executed at the dual-number carrier (extraction) and '
+              'compared with jax.jvp of the implementation, the explicit transposes with jax.vjp / jax.linear_transpose on basis '
+              'cotangents. JAX AD itself and the transcendental parts are decided by '
               'exploration on the implementation (jvp vs Richardson central difference, vjp-jvp dot test, '
               'finiteness, checkpoint/nesting invariance) - that part is exploration, stated as such.')
-LEVEL_NOTE = ('JAX AD, jax.checkpoint and XLA are trusted/exercised, not modelled; exp/log/power parts (Held-Suarez, moist '
-              'rational terms) are only explored; dual-number correspondence covers the sigma-coordinate column '
-              'operators, the T*omega/p column operator and the implicit temperature operator (dense and cumulative-sum)')
+LEVEL_NOTE = ('JAX AD, jax.checkpoint and XLA are trusted/exercised, not modelled; exp/log/power parts (Held-Suarez, the exp '
+              'table of the filters) are only explored or enter as constant tables; dual-number correspondence covers the '
+              'sigma-coordinate column operators, every nodal array that explicit_terms hands to to_modal (dry, moist, cloud), '
+              'the implicit temperature operator, to_nodal/to_modal (reference layout), the Grid differential operators '
+              '(both layouts) and the filter rescaling; the fast transform layout, implicit_inverse, integrator steps and '
+              'vertical interpolation are covered by the AD oracles only; D1^T = -D2 / grad^T = -div need a[.,l+1] = b[.,l] '
+              '(table obligation, holds for unpadded layouts)')
 TECHNIQUE = 'Coq proof (dual-number derivative + adjoint theorems) with extracted dual-carrier model vs jax.jvp; AD oracles by exploration'
 
 
@@ -88,6 +109,22 @@ def generate(ctx):
            [(n, list(f)) for n in (4, 6, 8, 12, 16) for f in _factorizations(n)]
     for n, f in lens:
         yield 'checkpoint', {'length': n, 'nested': f, 'seed': int(rng.integers(0, 2 ** 31))}
+    # dual-number model of the nodal column algebra / transforms / operators / filters vs jax.jvp, and the
+    # explicit transposes (Thm/AdjointOps.v) vs jax.vjp / jax.linear_transpose of the real functions
+    nod = [('dry', 3, 1, 0), ('moist', 3, 1, 0), ('cloud', 2, 1, 1), ('dry', 2, 0, 0)] if quick else \
+          [(k, K, va, sp) for k in ('dry', 'moist', 'cloud') for K in (1, 2, 3, 5) for va, sp in ((1, 0), (0, 1))]
+    for kind, K, va, sp in nod:
+        tref = (250.0 + rng.integers(-80, 81, size=K) / 4.0).tolist()
+        if K >= 2 and kind == 'dry' and not va: tref = [tref[0]] * K        # uniform reference: the np.unique branch
+        yield 'jvp_nodal', {'kind': kind, 'b': util.uneven_boundaries(rng, K).tolist(), 'tref': tref, 'va': va, 'sparse': sp,
+                            'nodes': 5 if quick else 12, 'seed': int(rng.integers(0, 2 ** 31))}
+    for M, L, I, Jn in ([(2, 3, 4, 3), (3, 4, 8, 4)] if quick else [(2, 3, 4, 3), (3, 4, 8, 4), (4, 5, 12, 6), (3, 5, 9, 5)]):
+        yield 'jvp_sht', {'M': M, 'L': L, 'I': I, 'J': Jn, 'seed': int(rng.integers(0, 2 ** 31))}
+    for impl in ('real', 'fast'):
+        yield 'jvp_deriv', {'impl': impl, 'M': 3, 'L': 4, 'I': 8, 'J': 4, 'seed': int(rng.integers(0, 2 ** 31))}
+    if not quick:
+        yield 'jvp_deriv', {'impl': 'fast', 'M': 4, 'L': 6, 'I': 12, 'J': 8, 'bsm': 4, 'seed': int(rng.integers(0, 2 ** 31))}
+    yield 'jvp_filter', {'seed': int(rng.integers(0, 2 ** 31))}
 
 
 def _factorizations(n, minf=1):
@@ -442,6 +479,308 @@ def r_checkpoint(ctx, a):
     ctx.oracle_close('jvp of nested scan with scan_fn = reversed scan = jvp of the flat reversed scan', jv_n, jv_f, tol_rel=1e-11)
 
 
+# ---------------------------------------------------------------------------
+# dual-number model / explicit transposes vs jax.jvp / jax.vjp of the real functions
+# ---------------------------------------------------------------------------
+QN, QC, QI = 'specific_humidity', 'specific_cloud_liquid_water_content', 'specific_cloud_ice_water_content'
+
+
+def _A(*zs):
+    return float(sum(np.max(np.abs(np.asarray(z, dtype=np.float64))) if np.size(z) else 0.0 for z in zs))
+
+
+def r_jvp_nodal(ctx, a):
+    """Every nodal array that explicit_terms hands to Grid.to_modal (recorded through a patched to_modal), as a function
+    of the modal state: jax.jvp (primal, tangent) vs Model/PrimEq.v run at dual numbers on the nodal diagnostic state
+    and ITS tangent (the nodal inputs are linear transforms of the state)."""
+    from unittest import mock
+    rng = _seed(ctx, a); m = dyn.mods(); jax = m['jax']; jnp = m['jnp']; pe = m['pe']; sh = m['sh']
+    kind = a['kind']; b = np.asarray(a['b'], dtype=np.float64); K = len(b) - 1; va = int(a['va']); sparse = int(a['sparse'])
+    g = dyn.grid(M=2, L=3, I=4, J=3); c = dyn.coords(g, b); specs = dyn.pe_specs()
+    tref = np.asarray(a['tref'], dtype=np.float64)
+    kw = {}
+    if not va: kw['include_vertical_advection'] = False
+    if sparse: kw['vertical_matmul_method'] = 'sparse'
+    eq = dyn.pe_equation(kind, c, specs, tref, dyn.modal_field(rng, g, (), 1, amp=0.01), **kw)
+    names = sorted(dyn.PE_TRACERS[kind]); wt = kind != 'dry'; moist = kind in ('moist', 'cloud')
+    amp = dict(vort=0.5, div=0.25, T=4.0, lnps=0.25, tr=0.125)
+    x = _to_jnp(dyn.pe_state(rng, c, 1, names, with_time=wt, amp=amp), 0.375)
+    v = _to_jnp(dyn.pe_state(rng, c, 1, names, with_time=wt, amp=amp), 0.75)
+    strip = (lambda s_: pe.State(s_.vorticity, s_.divergence, s_.temperature_variation, s_.log_surface_pressure, s_.tracers)) if wt else (lambda s_: s_)
+
+    def diag(s_):
+        s0 = strip(s_)
+        aux = pe.compute_diagnostic_state(s0, c)
+        ex = {}
+        if moist:
+            ex['lap'] = g.to_nodal(g.laplacian(s0.log_surface_pressure))
+            ex['gq'] = g.to_nodal(g.cos_lat_grad(s0.tracers[QN], clip=False))
+        return aux, ex
+    (aux, ex), (daux, dex) = jax.jvp(diag, (x,), (v,))
+    orig = sh.Grid.to_modal
+
+    def rec_fn(s_):
+        rec = []
+        def rec_to_modal(self, z):
+            rec.append(z)
+            return orig(self, z)
+        with mock.patch.object(sh.Grid, 'to_modal', rec_to_modal):
+            eq.explicit_terms(s_)
+        return tuple(rec)
+    recp, rect = jax.jvp(rec_fn, (x,), (v,))
+    order = ['combined_u', 'combined_v'] + (['hum_curl'] if moist else []) + ['kinetic'] \
+        + (['hum_geo', 'hum_div'] if moist else []) + ['hsa_mu:T', 'hsa_mv:T']
+    for n in names: order += ['hsa_mu:' + n, 'hsa_mv:' + n]
+    order += ['temp_total', 'lnps'] + ['tracer_total:' + n for n in names]
+    ctx.exact('number and order of to_modal calls in explicit_terms (under jax.jvp)', len(recp), len(order))
+    if len(recp) != len(order): return
+    N = lambda z: np.asarray(z, dtype=np.float64)
+    full = lambda z: np.broadcast_to(N(z), (N(z).shape[0],) + tuple(g.nodal_shape))
+    impl = {n: (full(p_), full(t_)) for n, p_, t_ in zip(order, recp, rect)}
+    impl['udg'] = (N(aux.u_dot_grad_log_sp), N(daux.u_dot_grad_log_sp))
+    impl['sde'] = (N(aux.sigma_dot_explicit), N(daux.sigma_dot_explicit)); impl['sdf'] = (N(aux.sigma_dot_full), N(daux.sigma_dot_full))
+    ad = jax.jvp(lambda s_: eq.nodal_temperature_adiabatic_tendency(pe.compute_diagnostic_state(strip(s_), c)), (x,), (v,))
+    impl['temp_adiabatic'] = (N(ad[0]), N(ad[1]))
+    ctx.oracle('derivative finite: nodal terms of explicit_terms', all(bool(np.all(np.isfinite(t_))) for _, t_ in impl.values()))
+    P = lambda t: (N(t[0]), N(t[1]))
+    u, du = zip(*[(N(p_), N(t_)) for p_, t_ in zip(aux.cos_lat_u, daux.cos_lat_u)])
+    gx, dgx = zip(*[(N(p_), N(t_)) for p_, t_ in zip(aux.cos_lat_grad_log_sp, daux.cos_lat_grad_log_sp)])
+    vort, dvort = N(aux.vorticity), N(daux.vorticity); dv_, ddv = N(aux.divergence), N(daux.divergence)
+    tp, dtp = N(aux.temperature_variation), N(daux.temperature_variation)
+    trn = {n: (N(aux.tracers[n]), N(daux.tracers[n])) for n in names}
+    sec2 = np.broadcast_to(N(g.sec2_lat), g.nodal_shape); fcor = np.broadcast_to(N(eq.coriolis_parameter), g.nodal_shape)
+    ls = np.log(c.vertical.centers); th = c.vertical.layer_thickness
+    consts = [specs.R, specs.kappa, specs.R_vapor, specs.Cp_vapor]
+    zK = np.zeros((K,) + tuple(g.nodal_shape)); z1 = np.zeros((1,) + tuple(g.nodal_shape))
+    if moist:
+        lap, dlap = N(ex['lap']), N(dex['lap']); gq = [N(t) for t in ex['gq']]; dgq = [N(t) for t in dex['gq']]
+        q, dq = trn[QN]
+    else:
+        lap = dlap = z1; gq = dgq = [zK, zK]; q = dq = zK
+    qc, dqc = trn.get(QC, (zK, zK)); qi, dqi = trn.get(QI, (zK, zK))
+    # magnitudes of the terms (primal + tangent), as in C04
+    cmin = float(np.min(c.vertical.center_to_center)) if K > 1 else 1.0
+    alpha = pe.get_sigma_ratios(c.vertical)
+    S2 = _A(sec2); Au = _A(u[0], du[0]); Av = _A(u[1], du[1]); Agx = _A(gx[0], dgx[0]); Agy = _A(gx[1], dgx[1])
+    U = 2 * (Au * Agx + Av * Agy) * S2; G = _A(dv_, ddv) + U; SD = 2 * G
+    VT = lambda w_, x_: 4 * w_ * x_ / cmin
+    GP = 2 * _A(alpha) * G / float(np.min(th)); MF = 8.0 if moist else 1.0
+    TT = _A(tref) + _A(tp, dtp)
+    S_ad = 2 * specs.kappa * TT * MF * (U + GP) + 1e-300
+    S_vert = VT(SD, _A(tp, dtp)) + VT(SD, _A(tref)) + 1e-300
+    S_tot = 2 * _A(tp, dtp) * _A(dv_, ddv) + S_vert + S_ad
+    S_c = 2 * (Au + Av) * (_A(vort, dvort) + _A(fcor)) * S2 + (VT(SD, max(Au, Av)) + 3 * specs.R * _A(tp, dtp) * MF * max(Agx, Agy)) * S2 + 1e-300
+    scale = {'udg': U + 1e-300, 'sde': SD + 1e-300, 'sdf': SD + 1e-300, 'temp_adiabatic': S_ad, 'lnps': U + 1e-300, 'temp_total': S_tot,
+             'combined_u': S_c, 'combined_v': S_c, 'kinetic': 2 * (Au ** 2 + Av ** 2) * S2 + 1e-300,
+             'hsa_mu:T': 2 * Au * _A(tp, dtp) * S2 + 1e-300, 'hsa_mv:T': 2 * Av * _A(tp, dtp) * S2 + 1e-300}
+    for n in names:
+        At = _A(*trn[n])
+        scale['hsa_mu:' + n] = 2 * Au * At * S2 + 1e-300; scale['hsa_mv:' + n] = 2 * Av * At * S2 + 1e-300
+        scale['tracer_total:' + n] = VT(SD, At) + 2 * At * _A(dv_, ddv) + 1e-300
+    dR = abs(specs.R_vapor - specs.R); Agq = max(_A(gq[0], dgq[0]), _A(gq[1], dgq[1]))
+    scale['hum_curl'] = _A(tref) * dR * S2 * 4 * max(Agx, Agy) * Agq + 1e-300
+    scale['hum_div'] = scale['hum_curl'] + 2 * _A(q, dq) * _A(lap, dlap) * _A(tref) * dR + 1e-300
+    scale['hum_geo'] = specs.R * _A(alpha) * 4 * K * _A(q, dq) * TT * abs(specs.R_vapor / specs.R - 1) + 1e-300
+    nlon, nlat = g.nodal_shape
+    allnodes = [(i, j) for i in range(nlon) for j in range(nlat)]
+    sel = rng.choice(len(allnodes), size=min(int(a.get('nodes', 12)), len(allnodes)), replace=False)
+    got = {n: [] for n in impl}; want = {n: [] for n in impl}
+    ints = [K, va, sparse]
+
+    def split(mo, sizes):
+        out = []; k = 0
+        for n_ in sizes:
+            out.append(list(mo[k:k + 2 * n_])); k += 2 * n_
+        return out
+    for s_ in sel:
+        i, jn = allnodes[int(s_)]
+        col = lambda z: z[:, i, jn]
+        base = [ls, b, tref, consts, col(u[0]), col(u[1]), col(vort), col(dv_), col(tp),
+                [gx[0][0, i, jn], gx[1][0, i, jn], sec2[i, jn], fcor[i, jn], lap[0, i, jn]], col(q), col(qc), col(qi), col(gq[0]), col(gq[1]),
+                col(du[0]), col(du[1]), col(dvort), col(ddv), col(dtp),
+                [dgx[0][0, i, jn], dgx[1][0, i, jn], 0.0, 0.0, dlap[0, i, jn]], col(dq), col(dqc), col(dqi), col(dgq[0]), col(dgq[1])]
+        out = {}
+        m0 = ctx.model.call(10, ints, base)
+        if m0 is None:
+            ctx.corr('nodal column model (cmd 10)', [0.0], None); return
+        (out['udg'], out['sde'], out['sdf'], _tv, out['temp_adiabatic'], out['lnps'], out['temp_total'], out['combined_u'],
+         out['combined_v'], out['kinetic']) = split(m0, [K, K - 1, K - 1, K, K, 1, K, K, K, K])
+        for n, (arr_n, darr_n) in [('T', (tp, dtp))] + [(n, trn[n]) for n in names]:
+            bb = list(base); bb[10] = col(arr_n); bb[21] = col(darr_n)
+            tt, out['hsa_mu:' + n], out['hsa_mv:' + n] = split(ctx.model.call(11, ints, bb), [K, K, K])
+            if n != 'T': out['tracer_total:' + n] = tt
+        if moist:
+            (out['temp_adiabatic'], out['temp_total'], out['combined_u'], out['combined_v'], out['hum_div'], out['hum_geo'],
+             out['hum_curl']) = split(ctx.model.call(12, ints, base), [K] * 7)
+            if kind == 'cloud':
+                out['combined_u'], out['combined_v'] = split(ctx.model.call(13, ints, base), [K, K])
+        for n in impl:
+            got[n] += impl[n][0][:, i, jn].tolist() + impl[n][1][:, i, jn].tolist(); want[n] += out[n]
+    for n in impl:
+        ctx.corr('nodal column (primal, tangent) vs dual-number model: ' + n.split(':')[0], got[n], want[n],
+                 scale=scale[n if n in scale else n.split(':')[0]])
+    ctx.count('jvp_nodal:%s:K%d:va%d' % (kind, K, va))
+
+
+def _guarded(ctx, name, fn):
+    """Run one block of comparisons; an exception of the implementation (e.g. a derivative rule that forbids forward or
+    reverse mode) is a broken obligation of that block, and the remaining blocks still run."""
+    import traceback
+    try:
+        fn()
+    except Exception:
+        ctx.mismatches.append(dict(ctx._where(), what=name + ': exception', detail=traceback.format_exc()[-800:]))
+
+
+def r_jvp_sht(ctx, a):
+    """Grid.to_nodal / to_modal (reference layout): jax.jvp vs Model/SHT.v at dual numbers with the implementation's own
+    tables as constants; jax.vjp / jax.linear_transpose on basis cotangents vs the explicit transposes synthT / analysisT;
+    the weighted adjointness <to_nodal x, z>_w = <x, to_modal z> on the implementation."""
+    rng = _seed(ctx, a); m = dyn.mods(); jax = m['jax']; jnp = m['jnp']
+    g = dyn.grid(M=a['M'], L=a['L'], I=a['I'], J=a['J'])
+    bs = g.spherical_harmonics.basis
+    f, p, w = (np.asarray(t, dtype=np.float64) for t in (bs.f, bs.p, bs.w))
+    K, L = g.modal_shape; I, Jn = g.nodal_shape
+    ints = [K, L, I, Jn]
+    x = util.small_rationals(rng, (K, L)); dx = util.small_rationals(rng, (K, L))
+    z = util.small_rationals(rng, (I, Jn)); dz = util.small_rationals(rng, (I, Jn))
+    fs = float(np.abs(f).max() * np.abs(p).max()); ws = float(np.abs(w).max())
+    tabs = [f.ravel(), p.ravel(), w]
+
+    def fwd_nodal():
+        pt = jax.jvp(g.to_nodal, (jnp.asarray(x),), (jnp.asarray(dx),))
+        ctx.corr('to_nodal (primal, tangent) vs dual-number model', np.concatenate([np.ravel(pt[0]), np.ravel(pt[1])]),
+                 ctx.model.call(20, ints, tabs + [x.ravel(), dx.ravel()]), scale=fs * (np.abs(x).sum() + np.abs(dx).sum()) + 1e-300)
+
+    def fwd_modal():
+        pt = jax.jvp(g.to_modal, (jnp.asarray(z),), (jnp.asarray(dz),))
+        ctx.corr('to_modal (primal, tangent) vs dual-number model', np.concatenate([np.ravel(pt[0]), np.ravel(pt[1])]),
+                 ctx.model.call(21, ints, tabs + [z.ravel(), dz.ravel()]), scale=fs * ws * (np.abs(z).sum() + np.abs(dz).sum()) + 1e-300)
+
+    # reverse mode on basis cotangents (every column of the transposed Jacobian) and one dense cotangent
+    def rev_nodal():
+        _, vjp_syn = jax.vjp(g.to_nodal, jnp.asarray(x))
+        cots = [np.eye(I * Jn)[k].reshape(I, Jn) for k in range(I * Jn)] + [z]
+        got = []; want = []
+        for ct in cots:
+            got += np.ravel(vjp_syn(jnp.asarray(ct))[0]).tolist(); want += ctx.model.call(22, ints, tabs + [ct.ravel()])
+        ctx.corr('vjp(to_nodal) on basis cotangents vs synthT (= to_modal without quadrature weights)', got, want, scale=fs * max(1.0, np.abs(z).sum()))
+        ctx.oracle_close('<J v, w> = <v, J^T w> for to_nodal with J^T = vjp', float(np.sum(np.asarray(g.to_nodal(jnp.asarray(dx))) * z)),
+                         float(np.sum(dx * np.asarray(vjp_syn(jnp.asarray(z))[0]))), scale=fs * np.abs(dx).sum() * np.abs(z).sum() + 1e-300, tol_rel=1e-12)
+
+    def rev_modal(kind):
+        if kind == 'linear_transpose':
+            tr = jax.linear_transpose(g.to_modal, jnp.asarray(z))
+        else:
+            _, tr = jax.vjp(g.to_modal, jnp.asarray(z))
+        cots = [np.eye(K * L)[k].reshape(K, L) for k in range(K * L)] + [x]
+        got = []; want = []
+        for ct in cots:
+            got += np.ravel(tr(jnp.asarray(ct))[0]).tolist(); want += ctx.model.call(23, ints, tabs + [ct.ravel()])
+        ctx.corr(f'{kind}(to_modal) on basis cotangents vs analysisT (= weights * to_nodal)', got, want, scale=fs * ws * max(1.0, np.abs(x).sum()))
+
+    _guarded(ctx, 'jvp(to_nodal)', fwd_nodal); _guarded(ctx, 'jvp(to_modal)', fwd_modal)
+    _guarded(ctx, 'vjp(to_nodal)', rev_nodal)
+    _guarded(ctx, 'linear_transpose(to_modal)', lambda: rev_modal('linear_transpose')); _guarded(ctx, 'vjp(to_modal)', lambda: rev_modal('vjp'))
+    # the theorem's statement on the implementation
+    yn = np.asarray(g.to_nodal(jnp.asarray(x))); xm = np.asarray(g.to_modal(jnp.asarray(z)))
+    sc = fs * ws * np.abs(x).sum() * np.abs(z).sum() + 1e-300
+    ctx.oracle_close('<to_nodal x, z>_w = <x, to_modal z> (transforms mutually adjoint up to the quadrature weights)',
+                     float(np.sum(w[None, :] * yn * z)), float(np.sum(x * xm)), scale=sc, tol_rel=1e-12)
+    ctx.count('jvp_sht:%dx%d' % (K, L))
+
+
+def r_jvp_deriv(ctx, a):
+    """Grid differential operators: jax.jvp vs Model/Deriv.v at dual numbers (recurrence tables of the implementation as
+    constants), jax.vjp on basis cotangents vs the explicit transposes of Thm/AdjointOps.v; table obligations of the
+    corollary D1^T = -D2."""
+    rng = _seed(ctx, a); m = dyn.mods(); jax = m['jax']; jnp = m['jnp']
+    fast = int(a['impl'] == 'fast')
+    kw = {'base_shape_multiple': a['bsm']} if a.get('bsm') else {}
+    g = dyn.grid(M=a['M'], L=a['L'], I=a['I'], J=a['J'], impl=a['impl'], **kw)
+    R, C = g.modal_shape
+    ta, tb = (np.asarray(t, dtype=np.float64) for t in g._derivative_recurrence_weights)
+    r = float(g.radius)
+    mk = np.asarray(g.mask).astype(np.float64)
+    x = util.small_rationals(rng, (R, C)) * mk; dx = util.small_rationals(rng, (R, C)) * mk
+    y = util.small_rationals(rng, (R, C)) * mk; dy = util.small_rationals(rng, (R, C)) * mk
+    cand = np.argwhere(mk > 0); i0, l0 = (int(t) for t in cand[len(cand) // 2])
+    x[i0, l0] = 0.0; dx[i0, l0] = 1.0      # a primal entry that is exactly zero with a non-zero tangent (where/sign guards)
+    Lm = float(a['L']) + 2; sx = float(np.abs(x).max() + np.abs(dx).max() + np.abs(y).max() + np.abs(dy).max()) + 1e-300
+    ctx.table_obligation('layout_ok: modal rows odd (reference) / even (fast)', R % 2 == (0 if fast else 1), {'R': R})
+    if C == a['L']:
+        ctx.table_obligation('H_ab_shift: a[:, l+1] = b[:, l]', bool(np.allclose(ta[:, 1:], tb[:, :-1], rtol=0, atol=1e-15)))
+        ctx.table_obligation('H_b_trunc: vacuous without padding (C = L)', True)
+    ops = [(0, 'd_dlon', lambda q, s: g.d_dlon(q), 1, 0, Lm), (1, 'cos_lat_d_dlat', lambda q, s: g.cos_lat_d_dlat(q), 1, 0, Lm),
+           (2, 'sec_lat_d_dlat_cos2', lambda q, s: g.sec_lat_d_dlat_cos2(q), 1, 0, Lm),
+           (3, 'laplacian', lambda q, s: g.laplacian(q), 1, 0, Lm * Lm / r ** 2), (4, 'inverse_laplacian', lambda q, s: g.inverse_laplacian(q), 1, 0, r ** 2),
+           (5, 'clip_wavenumbers', lambda q, s: g.clip_wavenumbers(q), 1, 1, 1.0),
+           (6, 'cos_lat_grad', lambda q, s: jnp.stack(g.cos_lat_grad(q, clip=False)), 0, 0, Lm / r),
+           (6, 'cos_lat_grad[clip]', lambda q, s: jnp.stack(g.cos_lat_grad(q, clip=True)), 1, 0, Lm / r),
+           (7, 'div_cos_lat', lambda q, s: g.div_cos_lat((q, s), clip=False), 0, 0, 2 * Lm / r),
+           (8, 'curl_cos_lat', lambda q, s: g.curl_cos_lat((q, s), clip=True), 1, 0, 2 * Lm / r)]
+    for op, nm, fn, clip, n, sc in ops:
+        pt = jax.jvp(fn, (jnp.asarray(x), jnp.asarray(y)), (jnp.asarray(dx), jnp.asarray(dy)))
+        mo = ctx.model.call(30, [fast, a['M'], a['L'], R, C, clip, n, op], [[r], ta.ravel(), tb.ravel(), x.ravel(), y.ravel(), dx.ravel(), dy.ravel()])
+        P = np.asarray(pt[0]); T = np.asarray(pt[1])
+        if P.ndim == 3:   # two outputs: model prints (re0, ep0, re1, ep1)
+            impl_v = np.concatenate([P[0].ravel(), T[0].ravel(), P[1].ravel(), T[1].ravel()])
+        else:
+            impl_v = np.concatenate([P.ravel(), T.ravel()])
+        ctx.corr(f'Grid.{nm}[{a["impl"]}] (primal, tangent) vs dual-number model', impl_v, mo, scale=sc * sx)
+        ctx.oracle(f'derivative finite: Grid.{nm}[{a["impl"]}]', bool(np.all(np.isfinite(T))))
+    # reverse mode vs the explicit transposes, on basis cotangents inside the modal array and one dense cotangent
+    idx = [int(t) for t in rng.choice(R * C, size=min(10, R * C), replace=False)]
+    cots = [np.eye(R * C)[k].reshape(R, C) for k in idx] + [util.small_rationals(rng, (R, C))]
+    tops = [(0, 'd_dlon', g.d_dlon, 1, Lm), (1, 'cos_lat_d_dlat', g.cos_lat_d_dlat, 1, Lm), (2, 'sec_lat_d_dlat_cos2', g.sec_lat_d_dlat_cos2, 1, Lm),
+            (3, 'laplacian', g.laplacian, 1, Lm * Lm / r ** 2), (4, 'inverse_laplacian', g.inverse_laplacian, 1, r ** 2),
+            (5, 'clip_wavenumbers', g.clip_wavenumbers, 1, 1.0)]
+    for op, nm, fn, n, sc in tops:
+        _, vjp = jax.vjp(fn, jnp.asarray(x))
+        got = []; want = []
+        for ct in cots:
+            got += np.ravel(vjp(jnp.asarray(ct))[0]).tolist()
+            want += ctx.model.call(31, [fast, a['M'], a['L'], R, C, 0, n, op], [[r], ta.ravel(), tb.ravel(), ct.ravel(), []])
+        ctx.corr(f'vjp(Grid.{nm})[{a["impl"]}] on basis cotangents vs explicit transpose', got, want, scale=sc * float(np.abs(cots[-1]).max() + 1))
+    _, vjp = jax.vjp(lambda q: g.cos_lat_grad(q, clip=False), jnp.asarray(x))
+    got = []; want = []
+    for k in range(len(cots)):
+        cu, cv = cots[k], cots[(k + 3) % len(cots)]
+        got += np.ravel(vjp((jnp.asarray(cu), jnp.asarray(cv)))[0]).tolist()
+        want += ctx.model.call(31, [fast, a['M'], a['L'], R, C, 0, 1, 6], [[r], ta.ravel(), tb.ravel(), cu.ravel(), cv.ravel()])
+    ctx.corr(f'vjp(Grid.cos_lat_grad)[{a["impl"]}] vs explicit transpose (-d_dlon u + D1^T v)/r', got, want, scale=2 * Lm / r * float(np.abs(cots[-1]).max() + 1))
+    if C == a['L']:
+        # <cos_lat_grad x, (u, v)> = -<x, div_cos_lat (u, v)> on the implementation (grad_div_adjoint)
+        gu, gv = (np.asarray(t) for t in g.cos_lat_grad(jnp.asarray(x), clip=False))
+        dv_ = np.asarray(g.div_cos_lat((jnp.asarray(y), jnp.asarray(dy)), clip=False))
+        ctx.oracle_close('<cos_lat_grad x, (u, v)> = -<x, div_cos_lat (u, v)>', float(np.sum(gu * y) + np.sum(gv * dy)), float(-np.sum(x * dv_)),
+                         scale=2 * Lm / r * sx * sx * R * C, tol_rel=1e-12)
+    ctx.count('jvp_deriv:' + a['impl'])
+
+
+def r_jvp_filter(ctx, a):
+    """exponential / diffusion filters: linear and diagonal in the state.  jax.jvp vs Model/Filters.v [rescale] at dual
+    numbers (attenuation table of the implementation as constant), reverse mode = the filter itself (self-adjoint)."""
+    rng = _seed(ctx, a); m = dyn.mods(); jax = m['jax']; jnp = m['jnp']; filtering = m['filtering']; ti = m['ti']
+    g = dyn.grid(M=4, L=5, I=13, J=7); R, C = g.modal_shape
+    x = util.small_rationals(rng, (R, C)); dx = util.small_rationals(rng, (R, C)); w = util.small_rationals(rng, (R, C))
+    x[0, 0] = 0.0; x[2, 3] = 0.0; dx[2, 3] = 1.0   # exactly-zero primal entries with non-zero tangent
+    sf = ti.exponential_step_filter(g, 0.1, tau=1.0, order=2)
+    fs = [('exponential_filter', filtering.exponential_filter(g, 16, 2, 0.3)), ('horizontal_diffusion_filter', filtering.horizontal_diffusion_filter(g, 0.01, 2)),
+          ('exponential_step_filter', lambda q: sf(q, q))]
+    for nm, f in fs:
+        scl = np.asarray(f(jnp.ones((R, C))), dtype=np.float64)[0]
+        pt = jax.jvp(f, (jnp.asarray(x),), (jnp.asarray(dx),))
+        ctx.corr(f'{nm} (primal, tangent) vs dual-number model', np.concatenate([np.ravel(pt[0]), np.ravel(pt[1])]),
+                 ctx.model.call(40, [R, C], [scl, x.ravel(), dx.ravel()]), scale=float(np.abs(x).max() + np.abs(dx).max()))
+        _, vjp = jax.vjp(f, jnp.asarray(x))
+        ctx.oracle_close(f'{nm}: reverse mode = the filter itself (diagonal, self-adjoint)', np.asarray(vjp(jnp.asarray(w))[0]), np.asarray(f(jnp.asarray(w))),
+                         scale=float(np.abs(w).max()), tol_rel=1e-13)
+        ctx.oracle_close(f'{nm}: forward mode of a linear map = the map applied to the tangent', np.asarray(pt[1]), np.asarray(f(jnp.asarray(dx))),
+                         scale=float(np.abs(dx).max()), tol_rel=1e-13)
+
+
 RUNNERS = {'jvp_sigma': r_jvp_sigma, 'jvp_primeq': r_jvp_primeq, 'grid_ops': r_grid_ops, 'filters': r_filters, 'interp': r_interp,
            'pe_terms': r_pe_terms, 'pe_step': r_pe_step, 'sw_terms': r_sw_terms, 'sw_step': r_sw_step,
-           'held_suarez': r_held_suarez, 'dfi': r_dfi, 'checkpoint': r_checkpoint}
+           'held_suarez': r_held_suarez, 'dfi': r_dfi, 'checkpoint': r_checkpoint,
+           'jvp_nodal': r_jvp_nodal, 'jvp_sht': r_jvp_sht, 'jvp_deriv': r_jvp_deriv, 'jvp_filter': r_jvp_filter}
